@@ -708,6 +708,30 @@ def rule_e4_guard(chk: Check, ix: Index):
     chk.units["guarded_literal_additions"] = n_sites
 
 
+def rule_e8(chk: Check, ix: Index):
+    """E8: builtin conversions applied to text of the input (int(), float(), complex(), chr(), bytes.fromhex, ...) raise
+    ValueError/OverflowError on inputs the tokenizer accepts (a 5000-digit literal exceeds the int<->str limit); such a call must
+    sit in a `try` that turns the failure into a SyntaxError.  `ast.literal_eval` reports a SyntaxError itself (C11 deals with
+    where it points)."""
+    RISKY = {"int", "float", "complex", "chr", "ord", "bytes.fromhex", "bytearray.fromhex", "int.from_bytes"}
+    n = 0
+    for q, f in sorted(ix.funcs.items()):
+        if f.rel not in (repo.SUBHEADER, repo.TOKENIZER, repo.TOKENIZE):
+            continue
+        for c in own_nodes(f.node):
+            if isinstance(c, ast.Call) and norm_stmt(c.func) in RISKY and c.args and not all(isinstance(a, ast.Constant) for a in c.args):
+                if isinstance(c.args[0], ast.Call) and norm_stmt(c.args[0].func) == "isinstance":
+                    continue
+                n += 1
+                chk.count("E8-conversion-call")
+                chk.require(_inside_try_catching(f.node, c, ("ValueError", "Exception", "OverflowError")), "E8-conversion-call",
+                            f"{q}:{norm_stmt(c)[:50]}", f"{f.rel}:{c.lineno}",
+                            f"`{norm_stmt(c)[:60]}` converts text of the input and can raise ValueError/OverflowError (e.g. a decimal "
+                            f"literal of more than 4300 digits): the exception escapes instead of a SyntaxError")
+    chk.count("E8-conversion-call")
+    chk.ok("E8-conversion-call", "conversion-calls-scanned", repo.SUBHEADER, f"{n} call(s)")
+
+
 def ir_for_w1():
     return repo.ir_x()
 
@@ -737,6 +761,8 @@ def run(chk: Check):
     # exponential re-parsing is a hang for practical purposes, like T4: same-position forks through unmemoised cycles (C18 W1)
     from .c18 import rule_w1
     rule_w1(chk, ir_for_w1(), False, "W1-memo-barrier")
+    from .c18 import rule_w4
+    rule_w4(chk, ir_for_w1())
     rule_e1(chk, ix, reach)
     tr = typed.run()
     rule_e1b(chk, tr)
@@ -746,6 +772,7 @@ def run(chk: Check):
     rule_e5(chk, ix)
     rule_e6(chk, ix)
     rule_e4_guard(chk, ix)
+    rule_e8(chk, ix)
     tr.feed(chk, {k: "E7-action-type-hazard" for k in (
         "S0-bad-attribute", "S0-none-attribute", "S0-none-iterated", "S0-none-subscript", "S0-bad-operand", "S0-bad-index",
         "S0-unpack-arity", "S0-call-arity", "S0-none-len", "S0-chain-nonlist", "S0-index-empty", "E4-mixed-literal-add", "S0-assert-none")})
